@@ -1,0 +1,8 @@
+//! Verification hook (compiled only with `--cfg quinn_rs_quinn_verif`).
+#![allow(missing_docs, dead_code, unused_imports, unreachable_pub, clippy::all)]
+use super::{Ops, Outs};
+
+/// Interpret `ops` for component `comp`; `None` if `comp` is not served by this module.
+pub(crate) fn run(_comp: &str, _ops: &Ops) -> Option<Outs> {
+    None
+}
